@@ -70,6 +70,10 @@ def track_probes(nt, bases):
                      ("hot_cue_at", {"i": 9, "v": [cue]}), ("hot_cue_at", {"i": -1, "v": []}), ("hot_cue_at", {"i": 2147483647, "v": [cue]}),
                      ("loop_at", {"i": 9, "v": [loop]}), ("loop_at", {"i": -2147483647, "v": []}),
                      ("hot_cues", [[cue]] * 12), ("loops", [[loop]] * 12), ("hot_cues", [[{"label": "@long300", "off": BIG}]]),
+                     ("loops", [[{"label": "@long300", "start": BIG, "end": HUGE}]]), ("loops", [[], [{"label": "@long256", "start": BIG, "end": HUGE}]]),
+                     ("loop_at", {"i": 2, "v": [{"label": "@long300", "start": BIG, "end": HUGE}]}),
+                     ("loop_at", {"i": 7, "v": [{"label": "@long256", "start": BIG, "end": HUGE}]}),
+                     ("hot_cue_at", {"i": 2, "v": [{"label": "@long300", "off": BIG}]}), ("hot_cue_at", {"i": 0, "v": [{"label": "@long256", "off": BIG}]}),
                      ("beatgrid", [[0, BIG]]), ("beatgrid", [[5, BIG], [1, "4000000000000000"]]), ("duration", [-1]), ("duration", [2147483647]),
                      ("rating", [-2147483647]), ("key", [99]), ("relative_path", [""]), ("relative_path", ["@long5000"]),
                      ("last_played_at", [{"s": "-1", "f": 0}]), ("last_played_at", [{"s": "9223372035", "f": 0}]), ("title", ["@long100000"])]:
